@@ -19,8 +19,8 @@ import (
 type TwinScript struct {
 	Cfg SessCfg `json:"cfg"`
 	Ops []SOp   `json:"ops"`
-	At  int     `json:"at"`  // the rejected input is delivered before op At (modulo len+1)
-	R   SOp     `json:"r"`   // how the rejected input is derived: W receiver, I source selector, X kind, L position, F value
+	At  int     `json:"at"` // the rejected input is delivered before op At (modulo len+1)
+	R   SOp     `json:"r"`  // how the rejected input is derived: W receiver, I source selector, X kind, L position, F value
 }
 
 func outSummary(out [][]byte) []string {
